@@ -384,6 +384,8 @@ func repsOf(weight int, tier string) int {
 		q, t = 3, 12
 	case 5: // a component that ignores its context for 2 s
 		q, t = 1, 6
+	case 6: // a forced interleaving in which one select still has two ready cases
+		q, t = 8, 32
 	}
 	if tier == "thorough" {
 		return t
